@@ -146,6 +146,12 @@ def run(ctx):
 
         ctx.violation(kind, w, feats, shrinker)
 
+    def handle_twin(p, sig):
+        """history: the same property body under other annotations, decomposed right after the first one"""
+        twin = ('prop', (('id', 'twin_%d' % (ctx.evaluations % 97)), ('title', '"another"')), p[2], p[3])
+        handle(twin, 'twin|' + sig, False)
+        ctx.count('twins_judged')
+
     idx = 0
     for sk in gen.SCOPES:
         for pk in gen.PATTERNS:
@@ -158,6 +164,8 @@ def run(ctx):
                     pg = gen.PropGen(rng, maxdepth=rng.randrange(1, 3), max_width=4, expose_disj_aliases=0.1 if rep % 5 == 4 else 0.0)
                     p, _, _ = pg.make(scope_kind=sk, pat_kind=pk, widths=dict(zip(positions, ws)), n=idx)
                     handle(p, f'{sk}|{pk}|{ws}|' + A.prop_shape(p), rep == 0)
+                    if idx % 3 == 0:
+                        handle_twin(p, f'{sk}|{pk}|{ws}')
     for n in range(ctx.share(B['random'])):
         pg = gen.PropGen(rng, maxdepth=rng.randrange(1, 4), max_width=6, expose_disj_aliases=0.3)
         sk, pk = gen.pick(rng, gen.SCOPES), gen.pick(rng, gen.PATTERNS)
